@@ -109,5 +109,124 @@ func c08GroupKeys(r *rep.Run) (evals int) {
 			}
 		}
 	}
+	evals += c08GroupSlices(r)
+	return evals
+}
+
+// c08GroupSlices: limit / offset / order given on _group, on an aggregate over _group and on an aggregate
+// over an inline array cut a slice of the ordered member sequence - with or without a limit next to the
+// offset, and whatever the enclosing request orders by.
+func c08GroupSlices(r *rep.Run) (evals int) {
+	ctx := context.Background()
+	n, err := newQNode(`type T { u: Int  a: Int  xs: [Int!] }`)
+	if err != nil {
+		rep.HarnessError("C08 group slices: %v", err)
+	}
+	defer n.db.Close()
+	// members per group (by u): a=1 -> 0,1,3,4   a=2 -> 2   ; xs only on u=0
+	if _, errs := world.Exec(ctx, n.db, `mutation { create_T(input: [{u: 0, a: 1, xs: [5, 3, 4, 1]}, {u: 1, a: 1, xs: []}, {u: 2, a: 2, xs: [7]}, {u: 3, a: 1, xs: [2, 2]}, {u: 4, a: 1, xs: [9, 8, 7]}]) { u } }`); len(errs) > 0 {
+		rep.HarnessError("C08 group slices: %v", errs)
+	}
+	members := map[int64][]int64{1: {0, 1, 3, 4}, 2: {2}}
+	arrays := map[int64][]int64{0: {5, 3, 4, 1}, 1: {}, 2: {7}, 3: {2, 2}, 4: {9, 8, 7}}
+	cut := func(seq []int64, desc bool, lim, off int) []int64 {
+		s := append([]int64{}, seq...)
+		sort.Slice(s, func(i, j int) bool {
+			if desc {
+				return s[i] > s[j]
+			}
+			return s[i] < s[j]
+		})
+		if off > len(s) {
+			off = len(s)
+		}
+		s = s[off:]
+		if lim > 0 && lim < len(s) {
+			s = s[:lim]
+		}
+		return s
+	}
+	viol := func(class, req, detail string) {
+		r.Violation(rep.Violation{Fingerprint: "C08:slice:" + class, Summary: req + ": " + detail, Replay: map[string]any{"engine": "c08-group-slices", "request": req}})
+	}
+	for _, outer := range []string{"", ", order: {a: ASC}", ", order: {a: DESC}"} {
+		for _, desc := range []bool{false, true} {
+			for _, lim := range []int{0, 1, 2, 5} {
+				for _, off := range []int{0, 1, 3, 6} {
+					if lim == 0 && off == 0 {
+						continue
+					}
+					dir := "ASC"
+					if desc {
+						dir = "DESC"
+					}
+					args := fmt.Sprintf("order: {u: %s}", dir)
+					if lim > 0 {
+						args += fmt.Sprintf(", limit: %d", lim)
+					}
+					if off > 0 {
+						args += fmt.Sprintf(", offset: %d", off)
+					}
+					class := fmt.Sprintf("limit=%v offset=%v outer-order=%v", lim > 0, off > 0, outer != "")
+					// 1. the members themselves
+					req := fmt.Sprintf(`query { T(groupBy: [a]%s) { a _group(%s) { u } } }`, outer, args)
+					data, errs := world.Exec(ctx, n.db, req)
+					evals++
+					if len(errs) > 0 {
+						viol("group-members:error", req, fmt.Sprint(errs))
+					}
+					for _, row := range world.Rows(data, "T") {
+						var got []int64
+						for _, m := range world.Rows(map[string]any{"x": row["_group"]}, "x") {
+							got = append(got, toInt(m["u"]))
+						}
+						want := cut(members[toInt(row["a"])], desc, lim, off)
+						if fmt.Sprint(got) != fmt.Sprint(want) {
+							viol("group-members:"+class, req, fmt.Sprintf("group a=%d: members %v, the slice of the ordered members is %v", toInt(row["a"]), got, want))
+						}
+					}
+					// 2. aggregates over the same slice
+					cargs := strings.TrimPrefix(strings.TrimPrefix(args, "order: {u: "+dir+"}"), ", ") // _count takes no order
+					req = fmt.Sprintf(`query { T(groupBy: [a]%s) { a _count(_group: {%s}) _sum(_group: {field: u, %s}) } }`, outer, cargs, args)
+					data, errs = world.Exec(ctx, n.db, req)
+					evals++
+					if len(errs) > 0 {
+						viol("group-aggregate:error", req, fmt.Sprint(errs))
+					}
+					for _, row := range world.Rows(data, "T") {
+						want := cut(members[toInt(row["a"])], desc, lim, off)
+						var sum int64
+						for _, x := range want {
+							sum += x
+						}
+						if toInt(row["_count"]) != int64(len(want)) || toInt(row["_sum"]) != sum {
+							viol("group-aggregate:"+class, req, fmt.Sprintf("group a=%d: _count=%d _sum=%d, the slice %v has count %d sum %d", toInt(row["a"]), toInt(row["_count"]), toInt(row["_sum"]), want, len(want), sum))
+						}
+					}
+					// 3. aggregates over an inline array (no order on scalars: ordering is by value)
+					aargs := strings.Replace(args, "order: {u: "+dir+"}", "order: "+dir, 1)
+					req = fmt.Sprintf(`query { T(order: {u: ASC}) { u _count(xs: {%s}) _sum(xs: {%s}) } }`, strings.TrimPrefix(strings.TrimPrefix(aargs, "order: "+dir), ", "), aargs)
+					data, errs = world.Exec(ctx, n.db, req)
+					evals++
+					if len(errs) > 0 {
+						viol("array-aggregate:error", req, fmt.Sprint(errs))
+						continue
+					}
+					for _, row := range world.Rows(data, "T") {
+						arr := arrays[toInt(row["u"])]
+						wantSum := cut(arr, desc, lim, off)
+						var sum int64
+						for _, x := range wantSum {
+							sum += x
+						}
+						// _count without order: a slice of the stored sequence has the same length as a slice of the sorted one
+						if toInt(row["_count"]) != int64(len(wantSum)) || toInt(row["_sum"]) != sum {
+							viol("array-aggregate:"+class, req, fmt.Sprintf("u=%d xs=%v: _count=%d _sum=%d, the slice %v has count %d sum %d", toInt(row["u"]), arr, toInt(row["_count"]), toInt(row["_sum"]), wantSum, len(wantSum), sum))
+						}
+					}
+				}
+			}
+		}
+	}
 	return evals
 }
